@@ -214,7 +214,8 @@ def fam_incdec(tier):
 
 
 # ------------------------------------------------------------------ literal encodings
-LITS = sorted(set(INTS + [3, 8, 127, 128, 254, 257, -2, -254, -255, -256, -257, 65535, 65536, -65536,
+LITS = sorted(set(INTS + [3, 8, 62, 63, 64, 65, 127, 128, 129, -127, -128, -129, 254, 257, -2, -254, -255, -256, -257, 32767, 32768, -32768, -32769,
+                          65535, 65536, 65537, -65535, -65536, -65537, (1 << 31) - 2, -(1 << 31) + 1,
                           (1 << 31) - 1, -(1 << 31) - 1, (1 << 31) + 1, (1 << 32) - 1, (1 << 32) + 1, -(1 << 32),
                           1 << 62, INT_MAX - 1, INT_MIN + 1]))
 
@@ -236,6 +237,17 @@ def fam_literal(tier):
             g.add('hex', b'mixed @F() { return ' + (b'0x%x' % v if v >= 0 else b'(-0x%x)' % -v if v != INT_MIN else b'(-0x7fffffffffffffff - 1)') + b'; }')
             g.add('neg-neg', b'mixed @F() { return -(' + lit(wrap(-v)) + b'); }') if v != INT_MIN else None
             g.add('case-label', b'mixed @F(int a) { switch (a) { case ' + lit(v) + b': return a; } return "miss"; }', carg(v))
+            # the same constant produced by the constant folder in different ways, and as one of several pushes in a row
+            g.add('folded-plus', b'mixed @F() { return ' + lit(wrap(v - 1)) + b' + 1; }')
+            g.add('folded-minus', b'mixed @F() { return ' + lit(wrap(v + 1)) + b' - 1; }')
+            g.add('folded-compl', b'mixed @F() { return ~' + lit(~v) + b'; }')
+            g.add('folded-shift', b'mixed @F() { return (' + lit(v >> 1) + b' << 1) | ' + lit(v & 1) + b'; }')
+            g.add('folded-mul', b'mixed @F() { return ' + lit(v // 2) + b' * 2 + ' + lit(v - (v // 2) * 2) + b'; }')
+            g.add('folded-xor', b'mixed @F() { return ' + lit(v ^ 0x5555) + b' ^ 21845; }')
+            g.add('pushseq', b'mixed @F() { mixed *t = ({ 1, ' + lit(v) + b', 63, 64, ' + lit(v) + b', "a" }); return t[4]; }')
+            g.add('pushseq-local', b'mixed @F() { int a = 5; string b = "b"; mixed *t = ({ a, ' + lit(v) + b', b, a, ' + lit(v) + b' }); return t[1]; }')
+            g.add('computed-plus', b'mixed @F(int a) { return a + 1; }', carg(wrap(v - 1)))
+            g.add('computed-compl', b'mixed @F(int a) { return ~a; }', carg(~v))
         if t == 's':
             g.add('macro-str', b'mixed @F() { return M_ID(' + lit(v) + b'); }')
         yield g
